@@ -94,8 +94,199 @@ def leaf(iface, ident, log):
 
         async def __call__(self, scope, receive, send):
             log.append((ident, scope.get("root_path", ""), scope["path"]))
+            if scope["type"] == "websocket":
+                await receive()
+                return await send({"type": "websocket.close", "code": 1000})
             return await A.PlainTextResponse(json.dumps(ident))(scope, receive, send)
     return AApp()
+
+
+class Boom(Exception):
+    pass
+
+
+def troubled_leaf(iface, ident, log, mode):
+    """A leaf whose requests may end badly: mode[0] is 'ok', 'raise' (fails before it answers) or 'stream' (answers in three
+    pieces - the server may go away after the first)."""
+    if iface == "wsgi":
+        def app(environ, start_response):
+            log.append((ident, environ.get("SCRIPT_NAME", ""), environ.get("PATH_INFO", "")))
+            if mode[0] == "raise":
+                raise Boom("leaf")
+            start_response("200 OK", [("content-type", "text/plain")])
+
+            def body():
+                yield b"one"
+                yield b"two"
+                yield b"three"
+            return body() if mode[0] == "stream" else [json.dumps(ident).encode()]
+        return app
+
+    async def aapp(scope, receive, send):
+        log.append((ident, scope.get("root_path", ""), scope["path"]))
+        if mode[0] == "raise":
+            raise Boom("leaf")
+        await send({"type": "http.response.start", "status": 200, "headers": [(b"content-type", b"text/plain")]})
+        if mode[0] == "stream":
+            for piece in (b"one", b"two"):
+                await send({"type": "http.response.body", "body": piece, "more_body": True})
+        await send({"type": "http.response.body", "body": json.dumps(ident).encode()})
+    return aapp
+
+
+def troubled_histories(r, iface):
+    """One table object; forty requests that end badly (the leaf raises / the server closes the response after its first piece /
+    the client is gone and send() fails), in every pure and alternating mix, then ordinary requests: they are dispatched as if
+    nothing had happened."""
+    mod = __import__("baize.wsgi" if iface == "wsgi" else "baize.asgi", fromlist=["Subpaths"])
+    N = 40
+    for pattern in (("raise",), ("stream",), ("raise", "stream"), ("stream", "ok", "raise")):
+        for nested in (False, True):
+            log, mode = [], ["ok"]
+            inner = mod.Subpaths(("/b", troubled_leaf(iface, [0, 0], log, mode)), ("", troubled_leaf(iface, [0, 1], log, mode)))
+            app = mod.Subpaths(("/a", inner if nested else troubled_leaf(iface, [0], log, mode)), ("", troubled_leaf(iface, [1], log, mode)))
+            tree = [("/a", [("/b", None), ("", None)] if nested else None), ("", None)]
+            w = {"kind": "troubled", "iface": iface, "pattern": list(pattern), "nested": nested}
+            for k in range(N):
+                mode[0] = pattern[k % len(pattern)]
+                req = SV.AReq(path="/a/b/x" if k % 2 else "/zzz", root="/r")
+                r.count("evaluations")
+                if iface == "wsgi":
+                    env = SV.to_environ(req)
+                    try:
+                        it = app(env, lambda status, headers, exc_info=None: None)
+                        it = iter(it)
+                        next(it)
+                        if hasattr(it, "close"):
+                            it.close()  # the server goes away after the first piece
+                    except Boom:
+                        pass
+                    except Exception as e:  # noqa
+                        r.violation(f"troubled:exception:{type(e).__name__}", dict(w, step=k), f"{iface} Subpaths, request {k} of a history of troubled requests {pattern}: {e!r:.120}")
+                        break
+                else:
+                    async def receive():
+                        return {"type": "http.request", "body": b"", "more_body": False}
+                    sent = []
+
+                    async def send(m):
+                        if mode[0] == "stream" and len(sent) >= 2:
+                            raise OSError("client gone")
+                        sent.append(m)
+                    coro = app(SV.to_scope(req), receive, send)
+                    try:
+                        coro.send(None)
+                        coro.close()
+                    except StopIteration:
+                        pass
+                    except (Boom, OSError):
+                        pass
+                    except Exception as e:  # noqa
+                        r.violation(f"troubled:exception:{type(e).__name__}", dict(w, step=k), f"{iface} Subpaths, request {k} of a history of troubled requests {pattern}: {e!r:.120}")
+                        break
+            mode[0] = "ok"
+            for root, path in (("", "/a/b/c"), ("/r", "/a"), ("", "/q"), ("", "/a/x")):
+                del log[:]
+                res, _ = request(iface, app, root, path)
+                exp = ref_dispatch(tree, root, path)
+                r.count("evaluations")
+                r.count("distinct_nontrivial")
+                got = (log[0][0], log[0][1], log[0][2]) if len(log) == 1 else None
+                if res.exc is not None or res.status != 200 or got != (exp[0], exp[1], exp[2]):
+                    r.violation("troubled:later-request", dict(w, root=root, path=path), f"{iface} Subpaths (nested: {nested}) after {N} requests that ended badly ({pattern}): request root={root!r} path={path!r} gave status {res.status}, exception {res.exc!r:.100}, leaf calls {log}; expected leaf {exp}")
+    r.sample({"troubled": iface, "requests": N})
+
+
+UNI_PREFIXES = ["/caf\u00e9", "/cafe\u0301", "/\u212b", "/\u00c5", "/A\u030a", ""]
+UNI_PATHS = ["/caf\u00e9", "/cafe\u0301", "/caf\u00e9/menu", "/cafe\u0301/menu", "/cafe", "/cafe\u0301x", "/\u212b/x", "/\u00c5/x", "/A\u030a/x", "/A", "/\ufb01/x"]
+
+
+def unicode_forms(r, iface):
+    """Prefixes and paths that a person reads as the same text but that are different strings (composed and decomposed letters,
+    the Angstrom sign and the letter): a prefix matches the path that starts with exactly its characters."""
+    for n in (1, 2):
+        for seq in itertools.product(UNI_PREFIXES, repeat=n):
+            tree = [(p, None) for p in seq]
+            log = []
+            app = build(iface, tree, log)
+            for root in ("", "/r"):
+                for path in UNI_PATHS:
+                    judge_mount(r, iface, app, tree, log, root, path)
+    r.sample({"unicode_forms": UNI_PREFIXES, "iface": iface})
+
+
+def websocket_mounts(r, tier):
+    """WebSocket connections are dispatched by the same rule as requests."""
+    from baize import asgi as A
+    flat, nested, deep = trees(tier)
+    lst = [t for t in flat if len(t) <= 2] + nested[::7] + deep[::3]
+    for tree in lst:
+        log = []
+        app = build("asgi", tree, log)
+        for root in ("", "/r"):
+            for path in PATHS:
+                del log[:]
+                scope = {"type": "websocket", "path": path, "root_path": root, "raw_path": path.encode("utf-8", "surrogateescape"), "query_string": b"", "headers": [], "scheme": "ws", "server": ("a.com", 80), "subprotocols": []}
+                sent = []
+
+                async def receive():
+                    return {"type": "websocket.connect"}
+
+                async def send(m):
+                    sent.append(m)
+                exc = None
+                coro = app(scope, receive, send)
+                try:
+                    coro.send(None)
+                    coro.close()
+                    exc = RuntimeError("suspended")
+                except StopIteration:
+                    pass
+                except Exception as e:  # noqa
+                    exc = e
+                r.count("evaluations")
+                exp = ref_dispatch(tree, root, path)
+                w = {"kind": "wsmount", "tree": tree, "root": root, "path": path}
+                if exp is None:
+                    if log:
+                        r.violation("wsmount:dispatch-without-match", w, f"asgi Subpaths {tree}, websocket connection root={root!r} path={path!r}: no entry matches, leaf calls {log}")
+                    continue
+                r.count("distinct_nontrivial")
+                got = (log[0][0], log[0][1], log[0][2]) if len(log) == 1 else None
+                if exc is not None or got != (exp[0], exp[1], exp[2]):
+                    r.violation("wsmount:not-dispatched", w, f"asgi Subpaths {tree}, websocket connection root={root!r} path={path!r}: expected leaf {exp}, leaf calls {log}, exception {exc!r:.100}")
+    # host tables
+    for table in itertools.product(HOST_PATTERNS[:5], repeat=2):
+        log = []
+        app = A.Hosts(*[(p, leaf("asgi", [i], log)) for i, p in enumerate(table)])
+        for h in HOSTS:
+            if h is None or not h.isascii() or "\n" in h:
+                continue
+            del log[:]
+            scope = {"type": "websocket", "path": "/", "root_path": "", "query_string": b"", "headers": [(b"host", h.encode("latin-1"))], "scheme": "ws", "server": ("testserver", 80), "subprotocols": []}
+
+            async def receive():
+                return {"type": "websocket.connect"}
+
+            async def send(m):
+                pass
+            coro = app(scope, receive, send)
+            exc = None
+            try:
+                coro.send(None)
+                coro.close()
+            except StopIteration:
+                pass
+            except Exception as e:  # noqa
+                exc = e
+            r.count("evaluations")
+            want = next((i for i, p in enumerate(table) if host_ref(p, h)), None)
+            got = log[0][0][0] if len(log) == 1 else None
+            if want is not None and (exc is not None or got != want):
+                r.violation("wsmount:host", {"kind": "wshost", "table": list(table), "host": h}, f"asgi Hosts {table}, websocket connection with Host {h!r}: expected entry {want}, leaf calls {log}, exception {exc!r:.100}")
+            elif want is None and log:
+                r.violation("wsmount:host-without-match", {"kind": "wshost", "table": list(table), "host": h}, f"asgi Hosts {table}, websocket connection with Host {h!r}: no pattern matches, leaf calls {log}")
+    r.sample({"wsmount": "websocket scopes through Subpaths and Hosts"})
 
 
 def user_mount(iface, prefix, app):
@@ -217,6 +408,8 @@ def shards(tier, seed):
                 out.append(("mount", iface, name, k, n))
         out.append(("hosts", iface))
     out.append(("threads",))
+    out.append(("wsmount",))
+    out += [("troubled", iface) for iface in ("wsgi", "asgi")] + [("unicode", iface) for iface in ("wsgi", "asgi")]
     out += [("python-O", ("mount", iface, "flat", 0, 4)) for iface in ("wsgi", "asgi")] + [("python-O", ("mount", "wsgi", "nested", 1, 4)), ("python-O", ("hosts", "asgi"))]
     return out
 
@@ -255,6 +448,15 @@ def run_shard(desc, tier):
         return fresh.optimized(__name__, tuple(desc[1]), tier)
     if desc[0] == "threads":
         thread_family(r, tier)
+        return r
+    if desc[0] == "wsmount":
+        websocket_mounts(r, tier)
+        return r
+    if desc[0] == "troubled":
+        troubled_histories(r, desc[1])
+        return r
+    if desc[0] == "unicode":
+        unicode_forms(r, desc[1])
         return r
     if desc[0] == "mount":
         _, iface, name, k, n = desc
@@ -376,8 +578,21 @@ def replay(w):
     if "threads" in w:
         thread_family(r, "quick")
         return bool(r.viol), {"violations": sorted(r.viol), "texts": [v[2][:300] for v in r.viol.values()]}
+    if w.get("kind") in ("wsmount", "wshost"):
+        websocket_mounts(r, "quick")
+        return bool(r.viol), {"violations": sorted(r.viol), "texts": [v[2][:300] for v in r.viol.values()]}
+    if w.get("kind") == "troubled":
+        troubled_histories(r, w["iface"])
+        return bool(r.viol), {"violations": sorted(r.viol), "texts": [v[2][:300] for v in r.viol.values()]}
     iface = w["iface"]
-    if w["kind"] == "mount":
+    if w["kind"] == "mount" and any(p in UNI_PREFIXES[:5] for p, _ in _untuple(w["tree"])):
+        tree = _untuple(w["tree"])
+        log = []
+        app = build(iface, tree, log)
+        for root in ("", "/r"):
+            for path in UNI_PATHS:
+                judge_mount(r, iface, app, tree, log, root, path)
+    elif w["kind"] == "mount":
         tree = _untuple(w["tree"])
         log = []
         app = build(iface, tree, log)
